@@ -41,6 +41,9 @@ enum Op {
     TxsProof,
     /// the REFRESH timer (finalize_check_points, proof requests)
     Refresh,
+    /// the filter protocol's GET_BLOCK_FILTERS timer (recovers a stored matched-blocks record
+    /// into the memory, re-requests proofs / bodies, asks for the next filters)
+    FilterTick,
     GetCells,
     GetTxs,
     GetCapacity,
@@ -55,13 +58,13 @@ impl Op {
     }
 }
 
-const OPS: [Op; 11] = [Op::SetAll, Op::SetPartial, Op::SetDelete, Op::Filters, Op::Block, Op::ForkProof, Op::TxsProof, Op::Refresh, Op::GetCells, Op::GetTxs, Op::GetCapacity];
+const OPS: [Op; 12] = [Op::SetAll, Op::SetPartial, Op::SetDelete, Op::Filters, Op::Block, Op::ForkProof, Op::TxsProof, Op::Refresh, Op::FilterTick, Op::GetCells, Op::GetTxs, Op::GetCapacity];
 
 /// the protocol handler object an operation needs exclusively (one handler runs one call at a time)
 fn handler_of(op: Op) -> Option<u8> {
     match op {
         Op::ForkProof | Op::TxsProof | Op::Refresh => Some(0),
-        Op::Filters => Some(1),
+        Op::Filters | Op::FilterTick => Some(1),
         Op::Block => Some(2),
         _ => None,
     }
@@ -298,6 +301,15 @@ fn run_schedule(env: &Env, main: &Chain, fork: &Chain, old: &mut Option<Sim>, pr
                     Box::new(move || {
                         let rt = ckb_network::tokio::runtime::Builder::new_current_thread().build().unwrap();
                         rt.block_on(fp.received(nc, p, data));
+                    })
+                }
+                Op::FilterTick => {
+                    let fp = fp.take().expect("one handler per pair");
+                    *fp.last_ask_time.write().unwrap() = None;
+                    let nc = as_nc(ctx_f);
+                    Box::new(move || {
+                        let rt = ckb_network::tokio::runtime::Builder::new_current_thread().build().unwrap();
+                        rt.block_on(fp.notify(nc, 0));
                     })
                 }
                 Op::Block => {
